@@ -89,6 +89,7 @@ type Exec struct {
 	parent *Exec
 	freeVals map[string]Val // closure free variable name -> pointer value
 	curCall  *ssa.CallCommon
+	tailPaths int
 }
 
 func (x *Exec) cellKey(a *ssa.Alloc) string {
@@ -165,8 +166,13 @@ func (x *Exec) oblige(st *State, kind string, pos token.Pos, goal string, tag st
 		o.Func = x.root().key
 	}
 	x.v.obls = append(x.v.obls, o)
-	// assume it afterwards (assert-then-assume)
-	x.c.assume(implies(st.guard, goal))
+	// assume it afterwards (assert-then-assume); obligations at the end of a
+	// path (postconditions, invariant preservation) need not be assumed
+	switch kind {
+	case "ensures", "inv-pres", "inv-init", "decreases":
+	default:
+		x.c.assume(implies(st.guard, goal))
+	}
 }
 
 func (x *Exec) root() *Exec {
@@ -295,10 +301,18 @@ func (x *Exec) run(st0 *State) {
 	order := x.rpo()
 	incoming := map[*ssa.BasicBlock]*blockIn{}
 	incoming[fn.Blocks[0]] = &blockIn{edges: []edgeState{{from: -1, st: st0}}}
+	tail := x.tailBlocks()
 	for _, b := range order {
 		in := incoming[b]
 		if in == nil || len(in.edges) == 0 {
 			continue // unreachable
+		}
+		if tail[b] && !x.inline {
+			delete(incoming, b)
+			for _, e := range in.edges {
+				x.execTail(b, e.from, e.st.clone())
+			}
+			continue
 		}
 		var st *State
 		if li, ok := x.loops[b]; ok {
@@ -310,6 +324,47 @@ func (x *Exec) run(st0 *State) {
 		delete(incoming, b)
 		x.execBlock(b, st, incoming)
 	}
+}
+
+// tailBlocks: blocks that are in no loop and from which no loop can be reached.
+func (x *Exec) tailBlocks() map[*ssa.BasicBlock]bool {
+	inLoop := map[*ssa.BasicBlock]bool{}
+	for _, li := range x.loopList {
+		for b := range li.body {
+			inLoop[b] = true
+		}
+	}
+	memo := map[*ssa.BasicBlock]int{} // 1 = reaches loop, 2 = does not
+	var reach func(b *ssa.BasicBlock) bool
+	reach = func(b *ssa.BasicBlock) bool {
+		if inLoop[b] {
+			return true
+		}
+		if m := memo[b]; m != 0 {
+			return m == 1
+		}
+		memo[b] = 2
+		r := false
+		for _, s := range b.Succs {
+			if reach(s) {
+				r = true
+			}
+		}
+		if r {
+			memo[b] = 1
+		}
+		return r
+	}
+	out := map[*ssa.BasicBlock]bool{}
+	if len(x.loopList) == 0 {
+		return out // loop-free functions keep the merging strategy (bounded query count)
+	}
+	for _, b := range x.fn.Blocks {
+		if !reach(b) {
+			out[b] = true
+		}
+	}
+	return out
 }
 
 func (x *Exec) rpo() []*ssa.BasicBlock {
@@ -737,6 +792,26 @@ func (x *Exec) clauseProps(cl *Clause) []string {
 // blocks and instructions
 
 func (x *Exec) execBlock(b *ssa.BasicBlock, st *State, incoming map[*ssa.BasicBlock]*blockIn) {
+	x.execBlockWith(b, st, func(from, to *ssa.BasicBlock, s *State) { x.pushEdge(from, to, s, incoming) })
+}
+
+// execTail runs a block of the loop-free tail of the function path by path
+// (no merging): postconditions are then checked on unmerged states.
+func (x *Exec) execTail(b *ssa.BasicBlock, from int, st *State) {
+	x.tailPaths++
+	if x.tailPaths > 256 {
+		panic(unsupported("too many paths in the loop-free tail of " + x.key))
+	}
+	x.bindPhis(b, []edgeState{{from: from, st: st}}, st)
+	x.execBlockWith(b, st, func(f, to *ssa.BasicBlock, s *State) {
+		if s.guard == "false" {
+			return
+		}
+		x.execTail(to, f.Index, s)
+	})
+}
+
+func (x *Exec) execBlockWith(b *ssa.BasicBlock, st *State, push func(from, to *ssa.BasicBlock, s *State)) {
 	for _, in := range b.Instrs {
 		switch in := in.(type) {
 		case *ssa.Phi:
@@ -750,11 +825,11 @@ func (x *Exec) execBlock(b *ssa.BasicBlock, st *State, incoming map[*ssa.BasicBl
 			t.guard = x.c.def("g", "Bool", and(st.guard, cn))
 			f := st.clone()
 			f.guard = x.c.def("g", "Bool", and(st.guard, not(cn)))
-			x.pushEdge(b, b.Succs[0], t, incoming)
-			x.pushEdge(b, b.Succs[1], f, incoming)
+			push(b, b.Succs[0], t)
+			push(b, b.Succs[1], f)
 			return
 		case *ssa.Jump:
-			x.pushEdge(b, b.Succs[0], st, incoming)
+			push(b, b.Succs[0], st)
 			return
 		case *ssa.Return:
 			x.doReturn(st, in)
@@ -992,12 +1067,18 @@ func (x *Exec) load(st *State, addr Val, pos token.Pos) Val {
 // value invariants -----------------------------------------------------
 
 func (x *Exec) valueInvFor(t types.Type) *valueInv {
-	nt, ok := t.(*types.Named)
+	star := ""
+	base := t
+	if pt, ok := t.(*types.Pointer); ok {
+		star = "*"
+		base = pt.Elem()
+	}
+	nt, ok := base.(*types.Named)
 	if !ok || nt.Obj().Pkg() == nil {
 		return nil
 	}
 	for _, vi := range x.p.valueInvs {
-		if vi.typ == nt.Obj().Name() && vi.pkg == nt.Obj().Pkg().Name() {
+		if vi.typ == star+nt.Obj().Name() && vi.pkg == nt.Obj().Pkg().Name() {
 			return vi
 		}
 	}
@@ -1006,7 +1087,12 @@ func (x *Exec) valueInvFor(t types.Type) *valueInv {
 
 // valueInvTerm instantiates the invariant (a ghost Go function) on a term.
 func (x *Exec) valueInvTerm(st *State, vi *valueInv, t types.Type, term string) string {
-	nt := t.(*types.Named)
+	var nt *types.Named
+	if pt, ok := t.(*types.Pointer); ok {
+		nt = pt.Elem().(*types.Named)
+	} else {
+		nt = t.(*types.Named)
+	}
 	obj := nt.Obj().Pkg().Scope().Lookup(vi.fn)
 	fo, ok := obj.(*types.Func)
 	if !ok {
@@ -1014,6 +1100,9 @@ func (x *Exec) valueInvTerm(st *State, vi *valueInv, t types.Type, term string) 
 	}
 	fn := x.p.ssaProg.FuncValue(fo)
 	name := "vinv_" + san(vi.pkg+"."+vi.typ)
+	if _, isDef := x.p.defines[vi.pkg+"."+vi.fn]; isDef {
+		panic(contractError{vi.line + ": valueinv needs a ghost Go function, not a define"})
+	}
 	c := x.c
 	if !c.funDecls[name] {
 		c.funDecls[name] = true
